@@ -25,6 +25,12 @@ m = {
     "engines": [
         {"name": "E1-sim", "path": "harness/", "kind_free_text": "real library over an in-memory carrier inside a testing/synctest bubble: stepped scenarios, virtual time, quiescence detection, tap + API-log monitors",
          "serves_properties": [c for c in checks if checks[c].get("engine", "E1-sim") == "E1-sim"]},
+        {"name": "E2-stress", "path": "harness/fam_c15.go", "kind_free_text": "free-running stress outside the bubble with real parallelism, built with -race, over the in-memory carrier (canaries) and real grpc-go on loopback TCP; jitter at every yield point; race log de-duplicated by the orchestrator",
+         "serves_properties": [c for c in checks if checks[c].get("engine") == "E2-stress"]},
+        {"name": "E3-fccore", "path": "harness/fam_c05.go", "kind_free_text": "the library's private flow-control sender/receiver pair in isolation (verif constructors), every atomic-level step parked for PRNG virtual durations, conservation monitor + progress oracle",
+         "serves_properties": ["C05"]},
+        {"name": "E4-rawpeer", "path": "harness/rawpeer.go, harness/fam_c09.go, harness/fam_c09b.go", "kind_free_text": "raw tunnel client / raw tunnel server speaking the protocol frame by frame to the real endpoint; conversation grammar, deviation catalogue, sequential reference classifier",
+         "serves_properties": ["C03", "C06", "C08", "C09", "C11", "C16"]},
     ],
     "checks": [],
     "notes": "All checks: python3 run_check.py <id> <tier>; exit 0 held on everything observed, 1 violation (VIOLATION line + replay file), 2 inconclusive (watchdog, floor not reached). VERIF_SEED selects the sampled part of the fixed case list.",
